@@ -35,6 +35,8 @@ type ChurnRecorder struct {
 	events    []BusEvent
 	OnReceive func(e *BusEvent)
 	flush     chan chan struct{}
+	pause     chan chan struct{}
+	resume    chan struct{}
 	done      chan struct{}
 	closed    atomic.Bool
 }
@@ -47,7 +49,7 @@ var fenceSeq atomic.Int64
 func NewChurnRecorder(bus event.Bus, onReceive func(e *BusEvent), names ...event.Name) *ChurnRecorder {
 	sub, err := bus.Subscribe(names...)
 	Must(err)
-	r := &ChurnRecorder{bus: bus, sub: sub, OnReceive: onReceive, flush: make(chan chan struct{}), done: make(chan struct{})}
+	r := &ChurnRecorder{bus: bus, sub: sub, OnReceive: onReceive, flush: make(chan chan struct{}), pause: make(chan chan struct{}), done: make(chan struct{})}
 	go r.loop()
 	return r
 }
@@ -81,6 +83,8 @@ func (r *ChurnRecorder) loop() {
 				return
 			}
 			r.record(m)
+		case resume := <-r.pause:
+			<-resume // a subscriber that has stopped reading: nothing is taken from the subscription until Resume
 		case ack := <-r.flush:
 			for empty := false; !empty; {
 				select {
@@ -107,6 +111,29 @@ func (r *ChurnRecorder) Flush() {
 	case r.flush <- ack:
 		<-ack
 	case <-r.done:
+	}
+}
+
+// Pause makes the recorder stop reading its subscription (a subscriber that has fallen asleep: the
+// bus fills its buffer and then blocks on it). It returns once the recorder's goroutine has stopped.
+// Flush must not be called on a paused recorder. Resume lets it read again (to the end, if the
+// subscription has been closed meanwhile). Both are called from the goroutine that owns the recorder.
+func (r *ChurnRecorder) Pause() {
+	if r.resume != nil {
+		return
+	}
+	p := make(chan struct{})
+	select {
+	case r.pause <- p:
+		r.resume = p
+	case <-r.done:
+	}
+}
+
+func (r *ChurnRecorder) Resume() {
+	if r.resume != nil {
+		close(r.resume)
+		r.resume = nil
 	}
 }
 
